@@ -103,7 +103,7 @@
 
 	fn bmp_unit_ok(u: u16) -> bool { !(0xD800..=0xDFFF).contains(&u) && u != 0xFFFF }
 
-	/// @ob bmp.from_utf16be.short @props C13,C10 @kind forall @tier quick @timeout 900 @replay bytes_bmp @bound "every byte string of length 0, 1, 2 and 3" @fns rcgen::string::BmpString::from_utf16be
+	/// @ob bmp.from_utf16be.short @props C13,C10 @kind forall @tier quick @timeout 900 @replay bytes_bmp3 @bound "every byte string of length 0, 1, 2 and 3" @fns rcgen::string::BmpString::from_utf16be
 	#[kani::proof]
 	#[kani::unwind(6)]
 	fn bmp_from_utf16be_short() {
@@ -119,7 +119,7 @@
 		}
 	}
 
-	/// @ob bmp.from_utf16be.two_units @props C13,C10 @kind forall @tier quick @timeout 900 @replay bytes_bmp @bound "every byte string of length 4 (lone and paired surrogates included)" @fns rcgen::string::BmpString::from_utf16be
+	/// @ob bmp.from_utf16be.two_units @props C13,C10 @kind forall @tier quick @timeout 900 @replay bytes_bmp4 @bound "every byte string of length 4 (lone and paired surrogates included)" @fns rcgen::string::BmpString::from_utf16be
 	#[kani::proof]
 	#[kani::unwind(6)]
 	fn bmp_from_utf16be_two_units() {
